@@ -19,6 +19,7 @@ struct MVal {
   uint64_t mag = 0;
   double f = 0;          // Float
   int8_t ext = 0;        // Ext type
+  uint32_t id = 0;       // node identity used by the history model (ignored by comparisons)
   std::string s;         // Str / Raw (verbatim fragment) / Bin / Ext payload
   std::vector<MVal> a;
   std::vector<std::pair<std::string, MVal>> o;
